@@ -112,6 +112,9 @@ func runC07(c *core.Ctx) {
 		c.Check(same, "mode-siblings", ctor, b.Catch.Pos(), fmt.Sprintf("pipe.%s and fork.%s: %s", ctor, ctor, a.Kind),
 			"pipe.%s (%s, cap const=%d param=%v) and fork.%s (%s, cap const=%d param=%v) disagree", ctor, a.Kind, a.CapConst, a.CapParam, ctor, b.Kind, b.CapConst, b.CapParam)
 	}
+	// the premise "provided the error channel is read (e.g. via StdErr)": StdErr itself must keep reading until the
+	// error channel is closed, or a Try stage parks in catch for ever
+	stdErrDrains(c)
 }
 
 // constructedType: the named type whose value the constructor returns inside an interface.
